@@ -1385,7 +1385,7 @@ fn apply_any_op(w: &World, s: &mut Session<'static>, m: &mut Model) {
 // @obligation cross-check of the inductive argument: from every INV state, TWO arbitrary in-request operations followed by sync() in one query agree with the reference model at every step and satisfy the sync post-condition (a time-out is recorded and changes nothing; a counterexample that replays natively is reported like any other)
 // @bounds as c11_sync_existing; 9 operations x 9 operations
 // @functions Session::{insert_raw,remove_raw,clear,delete,cycle_id,invalidate,get_raw,sync}, ClientSessionStateMut::{insert_raw,remove_raw}
-// @timeout 7200
+// @timeout 3600
 // @mem 40
 #[kani::proof]
 #[kani::unwind(4)]
